@@ -62,7 +62,7 @@ PROPS["C01"] = dict(
           "with 0-3 fault directives per round over the round's storage/lock operations (error or crash, applied or not applied, subset masks over the "
           "parallel tile uploads), restarts under faults and clock anomalies (stall, backwards, jump); plus an exhaustive single-fault sweep of short histories; "
           "non-trivial = >=2 committed checkpoints of different size and at least one fired fault, crash+restart, clock anomaly or tile-boundary crossing; "
-          "distinct = hash of the executed history descriptor; cases run inside a testing/synctest bubble so that 'stall until the context deadline' is an affordable fault mode; the log is sometimes created by two concurrent CreateLog calls and CreateLog is sometimes re-run over the existing log; rare rounds of several MiB; failed submissions are resubmitted; one history in ten is mirrored onto a real LocalBackend+SQLite"),
+          "distinct = hash of the executed history descriptor; cases run inside a testing/synctest bubble so that 'stall until the context deadline' is an affordable fault mode; the log is sometimes created by two concurrent CreateLog calls and CreateLog is sometimes re-run over the existing log; rare rounds of several MiB; failed submissions are resubmitted; one history in ten is mirrored onto a real LocalBackend+SQLite; sequencing context cancelled before one of a round's operations; err-deadline-exceeded faults and failing retries; overlapping tile uploads (batch barrier) and rare catch-up rounds of more than five tiles"),
     assumptions=["the simulated lock store is a correct CAS register and in-flight operations of a crashed process take effect at the crash instant or never",
                  "leaf timestamps equal the tree head timestamp of the round that sequenced them (what the code does), used to predict roots"],
     technique="stateful property-based testing over a fault-injecting storage/lock simulator with an independent RFC 6962 model",
@@ -79,7 +79,7 @@ PROPS["C03"] = dict(
           "applied / not applied) and for subsets of the parallel tile batch (all 2^m masks when m<=6, else boundary+sampled masks); for every crashed state the "
           "recovery (LoadLog) is swept the same way (quick: up to 10 evenly spaced points per state, thorough: all) with sampled repeated crashes; after the last crash a healthy "
           "restart, full storage audit at the lock checkpoint, acknowledgement check and one further round must succeed. evaluation = one crash path; "
-          "non-trivial = crash strictly inside a round with a non-empty pool, or inside recovery; distinct = hash of scenario+crash path; every operation of the swept round is also made to fail (applied / not applied) instead of crashing, after which the process dies and the recovery is swept"),
+          "non-trivial = crash strictly inside a round with a non-empty pool, or inside recovery; distinct = hash of scenario+crash path; every operation of the swept round is also made to fail (applied / not applied) instead of crashing, after which the process dies and the recovery is swept; every cancellation point of the sequencing context of the swept round followed by process exit is swept too"),
     assumptions=["in-flight operations of a crashed process take effect at the crash instant or never (no zombie writes)",
                  "the cache database of a crashed process is rolled back to the crash instant"],
     technique="exhaustive crash-point enumeration over generated rounds on a fault-injecting simulator, independent RFC 6962 audit as oracle",
@@ -96,7 +96,7 @@ PROPS["C04"] = dict(
           "1-byte and 64 KiB certificates), pool sizes steered across tile boundaries, with storage/lock faults and crashes; at the instant EVERY checkpoint upload takes effect the "
           "whole storage is audited against an independent rendering (byte-exact hash tiles and data tiles, names tiles as JSON values vs crypto/x509, issuers, leaf index/timestamp), "
           "every Upload is checked write-once, every Discard must target staging/, issuers must be stored when an entry is admitted; "
-          "non-trivial = >=2 publications after creation incl. one right after a partial->full tile transition, with >=1 precertificate and >=1 entry with issuers; distinct = history descriptor hash; cases run inside a testing/synctest bubble with 'stall until the context deadline' faults; a whole round and an equal submission (naming the same issuers whenever issuersMu is free) run inside a submission's issuer upload; one history in ten is mirrored onto a real LocalBackend+SQLite"),
+          "non-trivial = >=2 publications after creation incl. one right after a partial->full tile transition, with >=1 precertificate and >=1 entry with issuers; distinct = history descriptor hash; cases run inside a testing/synctest bubble with 'stall until the context deadline' faults; a whole round and an equal submission (naming the same issuers whenever issuersMu is free) run inside a submission's issuer upload; one history in ten is mirrored onto a real LocalBackend+SQLite; sequencing context cancelled mid-round, overlapping tile uploads (batch barrier) and catch-up rounds of more than five tiles; a second unit fabricates the right edge of logs with 2^31 .. 255*256^4 leaves and lets the server continue (leaf indexes above 2^32)"),
     assumptions=["names-tile lines are required only for certificates that crypto/x509 parses (what the code does; the public API cannot admit others)"],
     technique="stateful property-based testing with an invariant audited after every storage operation against an independent Static-CT renderer",
     units=[
@@ -111,7 +111,7 @@ PROPS["C02"] = dict(
           "of acknowledged entries, of other inline submissions), 0-3 fault directives per round, process kills right after acknowledgements with the cache kept, rolled back to "
           "before the round or to an older snapshot; every acknowledgement is checked against storage at the instant it is observed (release detection at every storage/lock operation) "
           "and against the committed tree after every later round and reload; non-trivial = an acknowledgement in a round that also had a fired fault or inline submission, or a kill after an acknowledgement; "
-          "distinct = history descriptor hash; bounded pools with low-priority submissions (rejections, evictions); precertificate chains (direct and via a precertificate signing certificate) through add-pre-chain; failed submissions are resubmitted and immediate answers are observed right after submission"),
+          "distinct = history descriptor hash; bounded pools with low-priority submissions (rejections, evictions); precertificate chains (direct and via a precertificate signing certificate) through add-pre-chain; failed submissions are resubmitted and immediate answers are observed right after submission; err-deadline-exceeded faults and failing retries; rare rounds of more than 11000 entries; panics of the add-chain handler are judged"),
     assumptions=["releases are observed at storage/lock-operation granularity (harness-owned schedule)", "SCT signature correctness over real chains is covered by the HTTP-level unit and by C09"],
     technique="stateful property-based testing with harness-owned scheduling of concurrent submitters on a fault-injecting simulator",
     units=[
@@ -126,7 +126,7 @@ PROPS["C07"] = dict(
           "between rounds: delete, roll back to a snapshot, replace by a harness-built legacy 128-bit table, rebuild with the built recompute-cache binary; the oracle predicts the source of every "
           "answer (pool / cache / new leaf) from its own bookkeeping, demands identical (index,timestamp) for all acknowledgements of a key while the cache is intact, and checks every acknowledgement "
           "against storage and the committed leaves; plus differentials of both computeCacheHash copies against an independent derivation; "
-          "non-trivial = a key acknowledged >=2 times in a history with a duplicate-while-sequencing, cache loss/rollback, legacy table, tool run or kill; distinct = history descriptor hash"),
+          "non-trivial = a key acknowledged >=2 times in a history with a duplicate-while-sequencing, cache loss/rollback, legacy table, tool run or kill; distinct = history descriptor hash; bounded pools and low-priority submissions with an eviction-aware oracle; rare rounds of more than 11000 entries followed by resubmissions"),
     assumptions=["cachePut succeeds whenever the round succeeded (SQLite write failures are not injected)"],
     technique="stateful property-based testing with a predicted-source deduplication oracle; differential test of the key derivation",
     bins=["cmd/recompute-cache"],
@@ -159,7 +159,7 @@ PROPS["C08"] = dict(
           "(checkpoint, edge hash/data/names tiles, staging bundles incl. discarded ones, issuers, _roots.pem): delete, truncate, bit-flip, garbage, swap two objects, roll back to any earlier version / restore a deleted object, "
           "re-pack a staging bundle (altered member, dropped member, extra checkpoint or tile member, duplicated member, bad options, broken archive); applied between runs and during a round at a generated yield point; "
           "then restart and 1-3 further rounds that reuse old issuers. Oracle: every checkpoint written to the lock store afterwards has the root of (committed leaves ++ sequenced pool) computed from the harness' own "
-          "submissions, and every acknowledgement is one of those leaves; refusing, erroring or panicking are allowed ways to stop. non-trivial = a tampered object on the right edge or a staging bundle; distinct = scenario descriptor hash"),
+          "submissions, and every acknowledgement is one of those leaves; refusing, erroring or panicking are allowed ways to stop. non-trivial = a tampered object on the right edge or a staging bundle; distinct = scenario descriptor hash; 'forge-recovery' tamper: checkpoint rolled back and a staging bundle planted with a right-edge hash tile wider than the committed edge plus a matching data tile"),
     assumptions=["the lock store is trusted (C08 is about object storage)", "a panic counts as stopping"],
     technique="mutation-based generation of storage states with a storage-independent Merkle model as oracle",
     units=[
@@ -172,7 +172,7 @@ PROPS["C17"] = dict(
     rule=("rapid-generated arrival timelines (3-24 actions: high / low priority / duplicate submissions and cancellation, separated by 0-2.25 s of virtual time) against RunSequencer with a 1 s period inside a testing/synctest bubble, "
           "pool sizes {0,1,2,3,7}, an optional non-fatal (staging/checkpoint upload) or fatal (lock/tile) failure of a generated round, an optional read-only date crossed during the run; a model of pool occupancy predicts the source of every admission "
           "decision (admit, reject when full, evict exactly one pending low-priority entry); after synctest.Wait() no submitter whose pool was sequenced/closed may still be blocked; after a stop nothing is signed any more; "
-          "non-trivial = the pool filled up and a high-priority arrival evicted, or a stop with >=1 pending submitter; distinct = timeline descriptor hash; clock stall / step back, slow storage or lock operations (rounds longer than a period), submissions after a stop, duplicates of known entries posted to add-chain (status code and Retry-After judged)"),
+          "non-trivial = the pool filled up and a high-priority arrival evicted, or a stop with >=1 pending submitter; distinct = timeline descriptor hash; clock stall / step back, slow storage or lock operations (rounds longer than a period), submissions after a stop, duplicates of known entries posted to add-chain (status code and Retry-After judged); submissions that first upload a new issuer, one such upload slower than a sequencing period; panics of wait functions are judged"),
     assumptions=["virtual time of testing/synctest; status-code mapping (503/410) is exercised by C09's HTTP harness, here the error identities are checked"],
     technique="model-based property testing under virtual time (testing/synctest)",
     units=[
